@@ -66,6 +66,8 @@ def state_desc(rng, state, unique=None, n_files=None, exact=False):
             big = fd_small(rng, "dsk", unique)
             big.update({"ftype": rng.choice([0, 1, 3]), "dtype": 0xFF, "len": rng.choice([65536, 70000, 90000]), "content": rng.choice(["ascii", "counter"])})
             d["files"] = d["files"][:1] + [big]
+        if state == "peer_dsk" and rng.chance(0.1):
+            d["tracks40"] = True
         if state == "peer_dsk" and rng.chance(0.08):
             d["bait"] = True            # granule 0 starts with bytes that look like the opening of a tape
         if state == "peer_dsk" and n_files is None and rng.chance(0.35):
@@ -467,6 +469,12 @@ class C11(HostProp):
         unique = set()
         for k in switches:
             inv[k] = "out" + EXT[k]
+        if rng.chance(0.08):
+            # an output path that climbs out of a symbolic link to a directory: images -> store/release/images, so
+            # images/../latest.x is store/release/latest.x, not latest.x
+            inv["links"] = {"images": "store/release/images"}
+            k = rng.choice(switches)
+            inv[k] = "images/../latest" + EXT[k]
         if rng.chance(0.35):
             k = rng.choice([s for s in switches])
             if k != "bin":
